@@ -119,6 +119,7 @@ type frame struct {
 	panic            interface{}
 	phitemps         []value // temporaries for parallel phi assignment
 	pos              token.Pos
+	skipPhis         bool
 	tolerant         bool    // package initialiser: failing statements poison their result
 }
 
@@ -262,6 +263,9 @@ func visitInstr(fr *frame, instr ssa.Instruction) continuation {
 				succ = 0
 			}
 		case sym:
+			if fr.tryMerge(c) {
+				return kJump
+			}
 			i.ex.site(fr, fr.block.Index)
 			if i.ex.Branch(c.t) {
 				succ = 0
@@ -723,6 +727,10 @@ func executePhis(fr *frame) []ssa.Instruction {
 	// Inv: 0 <= firstNonPhi; every block contains a non-phi.
 
 	nonPhis := fr.block.Instrs[firstNonPhi:]
+	if fr.skipPhis {
+		fr.skipPhis = false
+		return nonPhis
+	}
 	if firstNonPhi > 0 {
 		phis := fr.block.Instrs[:firstNonPhi]
 		predIndex := slices.Index(fr.block.Preds, fr.prevBlock)
